@@ -75,6 +75,21 @@ def _rows(spec, t0, kind, samples):
     return [(t0 + dt * d - 0.9 - (16.0 if d == 0 else 0.0), int(v)) for d, v in samples], np.int64
 
 
+def apply_meta(obs_params, meta):
+    """obs_params of a v4 part with the generated metadata (spec['meta']) applied: observer / description /
+    experiment_id, extra keys, dropped keys, dict order reversed."""
+    op = dict(obs_params)
+    for key in ('observer', 'description', 'experiment_id'):
+        if meta[key] != '' or key in op:
+            op[key] = meta[key]
+    for key in meta.get('drop', ()):
+        op.pop(key, None)
+    op.update(meta.get('extra', {}))
+    if meta.get('reverse'):
+        op = dict(reversed(list(op.items())))
+    return op
+
+
 class Part:
     """spec: dict(fmt, T, start, dt, ants, F, cfv, acts, targets, labels, sens={short: (kind, samples)}, arrs, seed)."""
 
@@ -119,6 +134,10 @@ class Part:
                 old = ts[a + '_observer']
                 ts.delete(a + '_observer')
                 ts[a + '_observer'] = moved(old)
+            if spec.get('meta'):
+                op = apply_meta(dict(ts['obs_params']), spec['meta'])
+                ts.delete('obs_params')
+                ts['obs_params'] = op
         elif fmt == 'v1':
             # v1 files store scans inside compound scans: cut the dumps at every event
             self.fn = os.path.join(tmp, '%s_%d.h5' % (tag, int(BASE[fmt] + spec['start'])))
@@ -139,6 +158,10 @@ class Part:
                 scans.append((csn, key[0], key[1], last(spec['acts'], a, 'slew'), b - a))
             mkv1(self.fn, scans, F=spec['F'], ants=tuple(spec['ants']), t0=BASE[fmt] + spec['start'], dt=spec['dt'],
                  seed=spec['seed'])
+            if spec.get('meta'):
+                with h5py.File(self.fn, 'r+') as f:
+                    for key in ('observer', 'description', 'experiment_id'):
+                        f.attrs[key] = spec['meta'][key]
         else:
             self.fn = os.path.join(tmp, '%s_%d.h5' % (tag, int(BASE[fmt] + spec['start'])))
             t0 = BASE[fmt] + spec['start']
@@ -166,15 +189,15 @@ class Part:
                         g2.attrs['description'] = moved(g2.attrs['description'])
         self.open_kwargs = dict(centre_freq=CENTRE[spec['cfv']]) if fmt == 'v3' else {}
 
-    def fresh(self):
+    def fresh(self, ref_ant=''):
         """A newly opened, independent data set object of this part (with the directly assigned arrays)."""
         if self.fmt == 'v4':
             from katdal.datasources import TelstateDataSource
             from katdal.visdatav4 import VisibilityDataV4
             x = self.x
-            d = VisibilityDataV4(TelstateDataSource(x.view, x.cbid, x.stream, chunk_store=x.store))
+            d = VisibilityDataV4(TelstateDataSource(x.view, x.cbid, x.stream, chunk_store=x.store), ref_ant)
         else:
-            d = katdal.open(self.fn, **self.open_kwargs)
+            d = katdal.open(self.fn, ref_ant, **self.open_kwargs)
         for name, vals in sorted(self.spec.get('arrs', {}).items()):
             d.sensor['Extra/c19_' + name] = np.array(vals)
         self.opened.append(d)
